@@ -1,7 +1,7 @@
 (* C06 property theorems.  Nothing but statements closed by `exact`, a pin, and
    Print Assumptions.  The driver parses this file's output. *)
 From ZV.Common Require Import Base.
-From ZV.C06 Require Import Model Spec ProofsBasic ProofsScan ProofsRefine ProofsSmall.
+From ZV.C06 Require Import Model ModelGold Spec ProofsBasic ProofsScan ProofsRefine ProofsSmall.
 Open Scope N_scope.
 
 (* normalize_hash never produces a slot marker, whatever the hasher returned *)
